@@ -24,4 +24,13 @@ def naive_timestamp_subsec_millis (dt : NaiveDT) : Int := ztimestamp_subsec_mill
 def naive_timestamp_subsec_micros (dt : NaiveDT) : Int := ztimestamp_subsec_micros (and_utc dt)
 def naive_timestamp_subsec_nanos (dt : NaiveDT) : Int := ztimestamp_subsec_nanos (and_utc dt)
 
+/-! ### `impl From<SystemTime> for DateTime<Local>` (src/datetime/mod.rs): `DateTime::<Utc>::from(t).with_timezone(&Local)`
+
+`with_timezone(&Local)` is `Local.from_utc_datetime(&self.datetime)`: the UTC reading is kept and the offset
+the zone prescribes at that UTC reading is attached.  Which offset that is, is C05's subject; here it is the
+parameter `off` (the harness passes the offset the implementation chose).  A panic of the `Utc` conversion
+propagates (the `with_timezone` call is never reached). -/
+def from_system_time_local (off S N : Int) : Res Zoned :=
+  (from_system_time S N).bind fun dt => .ok (Zoned.with_timezone (and_utc dt) off)
+
 end Chrono.M.Ts
